@@ -455,3 +455,88 @@ pub fn c17(p: &crate::AnyParser, rows: u16, cols: u16, sb: usize) -> Option<Fail
     }
     None
 }
+
+/// bytes that put a fresh parser into exactly the input modes of `p` using only sequences the
+/// property names (independent of the emitters under test)
+fn mode_setup(p: &vt100::Screen) -> Vec<u8> {
+    let mut v = vec![];
+    v.extend_from_slice(if p.application_keypad() { b"\x1b=" } else { b"\x1b>" });
+    v.extend_from_slice(if p.application_cursor() { b"\x1b[?1h" } else { b"\x1b[?1l" });
+    v.extend_from_slice(if p.bracketed_paste() { b"\x1b[?2004h" } else { b"\x1b[?2004l" });
+    v.extend_from_slice(if p.hide_cursor() { b"\x1b[?25l" } else { b"\x1b[?25h" });
+    match p.mouse_protocol_mode() {
+        vt100::MouseProtocolMode::None => {}
+        vt100::MouseProtocolMode::Press => v.extend_from_slice(b"\x1b[?9h"),
+        vt100::MouseProtocolMode::PressRelease => v.extend_from_slice(b"\x1b[?1000h"),
+        vt100::MouseProtocolMode::ButtonMotion => v.extend_from_slice(b"\x1b[?1002h"),
+        vt100::MouseProtocolMode::AnyMotion => v.extend_from_slice(b"\x1b[?1003h"),
+    }
+    match p.mouse_protocol_encoding() {
+        vt100::MouseProtocolEncoding::Default => {}
+        vt100::MouseProtocolEncoding::Utf8 => v.extend_from_slice(b"\x1b[?1005h"),
+        vt100::MouseProtocolEncoding::Sgr => v.extend_from_slice(b"\x1b[?1006h"),
+    }
+    v
+}
+
+/// C10: input_mode_formatted on a fresh parser reproduces the five input modes
+pub fn c10_formatted(s: &vt100::Screen) -> Option<Failure> {
+    let mut recv = fresh_like(s);
+    recv.process(&s.input_mode_formatted());
+    if crate::modes_str(recv.screen()) != crate::modes_str(s) {
+        return fail("C10", "input_mode_formatted", format!("input_mode_formatted {}: got {} want {}", crate::hex(&s.input_mode_formatted()), crate::modes_str(recv.screen()), crate::modes_str(s)));
+    }
+    None
+}
+
+/// C10: input_mode_diff(prev) on a parser whose modes equal prev's reproduces the current ones;
+/// empty iff no mode differs
+pub fn c10_diff(p: &vt100::Screen, s: &vt100::Screen) -> Option<Failure> {
+    let mut recv = fresh_like(p);
+    recv.process(&mode_setup(p));
+    if crate::modes_str(recv.screen()) != crate::modes_str(p) {
+        return None; // the set/reset semantics themselves are broken: that is the step correspondence's finding
+    }
+    let d = s.input_mode_diff(p);
+    recv.process(&d);
+    if crate::modes_str(recv.screen()) != crate::modes_str(s) {
+        return fail("C10", "input_mode_diff", format!("input_mode_diff {} from {}: got {} want {}", crate::hex(&d), crate::modes_str(p), crate::modes_str(recv.screen()), crate::modes_str(s)));
+    }
+    if d.is_empty() != (crate::modes_str(p) == crate::modes_str(s)) {
+        return fail("C10", "input_mode_diff-empty", format!("input_mode_diff empty={} but modes {} vs {}", d.is_empty(), crate::modes_str(p), crate::modes_str(s)));
+    }
+    None
+}
+
+/// C09: attributes_formatted sets exactly the pen on a receiver with an arbitrary pen
+pub fn c09_attrs(s: &vt100::Screen, rng: &mut crate::Rng) -> Option<Failure> {
+    let mut recv = fresh_like(s);
+    let junk: &[&[u8]] = &[b"", b"\x1b[1;3;4;7;31;42m", b"\x1b[2;38;5;200;48;2;1;2;3m", b"\x1b[91;107;4m", b"\x1b[7;2m"];
+    recv.process(junk[rng.below(junk.len() as u64) as usize]);
+    recv.process(&s.attributes_formatted());
+    if crate::pen_str(recv.screen()) != crate::pen_str(s) {
+        return fail("C09", "attributes_formatted", format!("attributes_formatted {}: got pen {} want {}", crate::hex(&s.attributes_formatted()), crate::pen_str(recv.screen()), crate::pen_str(s)));
+    }
+    None
+}
+
+/// C09: the pen-to-pen change emitted inside contents_diff turns prev's pen into the current one
+pub fn c09_pen_diff(p: &vt100::Screen, s: &vt100::Screen) -> Option<Failure> {
+    if p.size() != s.size() {
+        return None;
+    }
+    // isolate the pen: two blank screens carrying the two pens
+    let mut a = fresh_like(p);
+    a.process(&p.attributes_formatted());
+    let mut b = fresh_like(s);
+    b.process(&s.attributes_formatted());
+    if crate::pen_str(a.screen()) != crate::pen_str(p) || crate::pen_str(b.screen()) != crate::pen_str(s) {
+        return None;
+    }
+    let d = b.screen().contents_diff(a.screen());
+    a.process(&d);
+    if crate::pen_str(a.screen()) != crate::pen_str(s) {
+        return fail("C09", "pen-diff", format!("pen change {} -> {} emitted as {}: receiver pen {}", crate::pen_str(p), crate::pen_str(s), crate::hex(&d), crate::pen_str(a.screen())));
+    }
+    None
+}
